@@ -22,7 +22,7 @@ func init() {
 			"the raw map value is returned only where its assertion to *inFlightValue failed, and what is returned is the entry's value (the raw value, a placeholder's v, or the payload); " +
 			"R18.4 Store either funnels through LoadOrStore with a closure that only returns the value (optionally raising a flag) and overwrites on every exit where the flag is not known raised, " +
 			"or runs the placeholder protocol itself and, where the key was present, waits for an in-flight computation and then overwrites; " +
-			"R18.6 the map is touched only through sync.Map methods.",
+			"R18.6 the map is touched only through sync.Map methods; R18.7 a Store that funnels through LoadOrStore reaches the raw sync.Map.Store only where the flag is known lowered (its own closure did not run): the value is published once.",
 		Props: []string{"C18", "C17"},
 		Floor: map[string]int{"v2": 12, "root": 12},
 		Run:   runR18,
@@ -305,6 +305,7 @@ const (
 	r184b = "R18.4 Store overwrites unconditionally when it did not create the entry"
 	r184c = "R18.4 Store waits for an in-flight computation before overwriting"
 	r186  = "R18.6 the map is touched only through sync.Map methods"
+	r187  = "R18.7 Store publishes the value once"
 )
 
 // publisher checks the winner's protocol of a function that publishes a fresh placeholder.
@@ -318,6 +319,7 @@ func (l *lazyFn) publisher(rel string) {
 		bLoadedT
 		bLoadedF
 		bPub
+		bRetOK // the local that is returned holds the published value
 	)
 	constructs := []string{r181, r182a, r182b}
 	if l.fParam != nil {
@@ -332,6 +334,28 @@ func (l *lazyFn) publisher(rel string) {
 	var assigned interface{} // identity of the payload assigned to pub.v
 	hasResults := l.fd.Type.Results != nil && len(l.fd.Type.Results.List) > 0
 	winnerRet := ""
+	// a local through which the result is handed to the return statement (`res = value.v; …; return res`)
+	retVars := map[types.Object]bool{}
+	for _, r := range core.ReturnsIn(l.fd.Body) {
+		if len(r.Results) > 0 {
+			if id, ok := core.Unparen(r.Results[0]).(*ast.Ident); ok {
+				if vr, ok := core.ObjOf(l.inf, id).(*types.Var); ok && !vr.IsField() && vr.Pkg() != nil && vr.Parent() != vr.Pkg().Scope() {
+					retVars[vr] = true
+				}
+			}
+		}
+	}
+	isPublished := func(state int, e ast.Expr) bool {
+		if x, ok := l.vField(e); ok && x == l.pub && state&bAssigned != 0 {
+			return true
+		}
+		if p := l.payload(e); p != nil && p == assigned {
+			if _, isCall := core.Unparen(e).(*ast.CallExpr); !isCall {
+				return true
+			}
+		}
+		return false
+	}
 	core.NewFlow(l.c.M, l.inf, l.fd.Body).Run(&core.Automaton{
 		AtEnd: true,
 		Node: func(state int, n ast.Node) int {
@@ -343,6 +367,15 @@ func (l *lazyFn) publisher(rel string) {
 							state |= bAssigned
 						} else {
 							state &^= bAssigned
+						}
+					}
+				}
+				for i := range as.Lhs {
+					if id, ok := core.Unparen(as.Lhs[i]).(*ast.Ident); ok && len(retVars) == 1 && retVars[core.ObjOf(l.inf, id)] {
+						if isPublished(state, as.Rhs[i]) {
+							state |= bRetOK
+						} else {
+							state &^= bRetOK
 						}
 					}
 				}
@@ -411,13 +444,9 @@ func (l *lazyFn) publisher(rel string) {
 						v.pass(r182b, r.Pos())
 					}
 					if hasResults && len(r.Results) > 0 {
-						okRes := false
-						if x, ok := l.vField(r.Results[0]); ok && x == l.pub && state&bAssigned != 0 {
+						okRes := isPublished(state, r.Results[0])
+						if id, isId := core.Unparen(r.Results[0]).(*ast.Ident); isId && len(retVars) == 1 && retVars[core.ObjOf(l.inf, id)] && state&bRetOK != 0 {
 							okRes = true
-						} else if p := l.payload(r.Results[0]); p != nil && p == assigned {
-							if _, isCall := core.Unparen(r.Results[0]).(*ast.CallExpr); !isCall {
-								okRes = true
-							}
 						}
 						if !okRes {
 							winnerRet = fmt.Sprintf("the winner returns %s, which is not the value it published", core.ExprString(r.Results[0]))
@@ -443,6 +472,7 @@ func (l *lazyFn) publisher(rel string) {
 			return state, true
 		},
 	})
+	_ = isPublished
 	v.flush(l.fd.Pos(), "the required call is absent from "+l.name)
 	if l.fParam != nil {
 		l.c.Check(len(fSites) == 1, rel, l.name, r185b, l.fd.Pos(), "", fmt.Sprintf("%d call sites of the compute function", len(fSites)))
@@ -722,8 +752,9 @@ func (l *lazyFn) storeFunnel(rel string, funnel *ast.CallExpr) {
 		bCalled = 1 << iota
 		bOver
 		bFlagT
+		bFlagF
 	)
-	why := ""
+	why, twice := "", ""
 	core.NewFlow(l.c.M, l.inf, l.fd.Body).Run(&core.Automaton{
 		AtEnd: true,
 		Node: func(state int, n ast.Node) int {
@@ -733,6 +764,9 @@ func (l *lazyFn) storeFunnel(rel string, funnel *ast.CallExpr) {
 					state = bCalled
 				case l.isSyncMap(call, "Store"):
 					if len(call.Args) == 2 && core.ObjOf(l.inf, call.Args[0]) == l.key && core.ObjOf(l.inf, l.resolve(call.Args[1])) == l.val && state&bCalled != 0 {
+						if state&bFlagF == 0 && twice == "" {
+							twice = fmt.Sprintf("sync.Map.Store at %s runs on a path where this call's own closure may already have published the value through LoadOrStore: the second publication overwrites a Store that another goroutine completed in between, although that Store was ordered later", l.c.M.Fset.Position(call.Pos()))
+						}
 						state |= bOver
 					}
 				}
@@ -752,11 +786,15 @@ func (l *lazyFn) storeFunnel(rel string, funnel *ast.CallExpr) {
 				if id, ok := core.Unparen(f.Expr).(*ast.Ident); ok && flag != nil && core.ObjOf(l.inf, id) == flag && f.Val && state&bCalled != 0 {
 					state |= bFlagT
 				}
+				if id, ok := core.Unparen(f.Expr).(*ast.Ident); ok && flag != nil && core.ObjOf(l.inf, id) == flag && !f.Val && f.Tag == nil && state&bCalled != 0 {
+					state |= bFlagF
+				}
 			}
 			return state, true
 		},
 	})
 	l.c.Check(why == "", rel, l.name, r184b, l.fd.Pos(), "", why)
+	l.c.Check(twice == "", rel, l.name, r187, l.fd.Pos(), "", twice)
 }
 
 func indexOfStmt(list []ast.Stmt, s ast.Stmt) (int, bool) {
